@@ -65,6 +65,7 @@ type sStream struct {
 	expected int32
 	entered  int32
 	closed   int32 // the callback was invoked with the close signal
+	lastSeen int32 // SyncChain has called store.Last once
 	sut      *streamSUT
 	live     bool
 	returned bool
@@ -87,7 +88,11 @@ type gatingStore struct {
 }
 
 func (g *gatingStore) Last(ctx context.Context) (*common.Beacon, error) {
-	g.s.gate("gate-last")
+	// only SyncChain's first look at the head is a gate (a repaired hand-over that reads the head again after
+	// AddCallback is not held there: what it sends shows up at the Send gate like everything else)
+	if atomic.CompareAndSwapInt32(&g.s.lastSeen, 0, 1) {
+		g.s.gate("gate-last")
+	}
 	return g.CallbackStore.Last(ctx)
 }
 
